@@ -162,7 +162,7 @@ func scenC16(run *vlab.Run, sx, tmp string) {
 		cases = append(cases, c)
 	}
 	for i, c := range cases {
-		if !run.Mine(i) {
+		if !run.Mine(i) || tooManyHangs() {
 			continue
 		}
 		run.Case(fmt.Sprintf("c16w%04d", i), c)
@@ -458,7 +458,7 @@ func scenC15(run *vlab.Run, sx, tmp string) {
 		cases = append(cases, c)
 	}
 	for i, c := range cases {
-		if !run.Mine(i) {
+		if !run.Mine(i) || tooManyHangs() {
 			continue
 		}
 		run.Case(fmt.Sprintf("c15w%04d", i), c)
@@ -735,7 +735,7 @@ func scenC12(run *vlab.Run, sx, tmp string) {
 		cases = append(cases, c)
 	}
 	for i, c := range cases {
-		if !run.Mine(i) {
+		if !run.Mine(i) || tooManyHangs() {
 			continue
 		}
 		run.Case(fmt.Sprintf("c12w%04d", i), c)
@@ -850,5 +850,82 @@ func scenC12(run *vlab.Run, sx, tmp string) {
 		if run.WantSample() && c.When == "probe" && len(res.Stdout) > 0 {
 			run.Sample(map[string]interface{}{"argv": tailStr(strings.Join(args, " "), 120), "sigint_at_probe": c.K, "of": total, "lines": len(res.Stdout), "exit_ms": res.TExit.Milliseconds()})
 		}
+	}
+}
+
+
+// ---------------------------------------------------------------------------
+// c16max: the largest exit delays the flag accepts (arithmetic on the delay must not wrap around): the scan is
+// still listening three seconds after its last probe; it is then interrupted.
+func init() { scenarios["c16max"] = scenC16Max }
+
+func scenC16Max(run *vlab.Run, sx, tmp string) {
+	delays := []string{"2562047h47m16.854775807s", "2562047h", "9223372036s", "2562047h47m16.8s"}
+	cmds := [][]string{{"arp"}, {"icmp"}, {"tcp", "syn", "-p", "80"}, {"tcp", "--flags", "ack", "-p", "80"}}
+	for i := 0; i < 8; i++ {
+		if !run.Mine(i) {
+			continue
+		}
+		cmd := cmds[i%len(cmds)]
+		args := append([]string{}, cmd...)
+		args = append(args, "--json", "-i", "tap0", "--srcip", foreignSrcIP, "--exit-delay", delays[i%len(delays)])
+		if cmd[0] != "arp" {
+			args = append(args, "--gwmac", gwMAC, "-a", writeFile(tmp, "arp.cache", ""))
+		}
+		args = append(args, fmt.Sprintf("10.9.%d.0/30", 30+i))
+		run.Case(fmt.Sprintf("c16max%02d", i), args)
+		var mu sync.Mutex
+		var lastTx time.Time
+		var sigAt time.Time
+		armed := false
+		res := RunCase(sx, &CaseSpec{Args: args, Setup: commonWorld("tap"), Timeout: 60 * time.Second,
+			OnTx: func(cr *CaseRun, d *Dev, frame []byte) {
+				mu.Lock()
+				lastTx = time.Now()
+				first := !armed
+				armed = true
+				mu.Unlock()
+				if first {
+					go func() {
+						for {
+							time.Sleep(100 * time.Millisecond)
+							mu.Lock()
+							quiet := time.Since(lastTx)
+							mu.Unlock()
+							if quiet > 3*time.Second {
+								mu.Lock()
+								sigAt = time.Now()
+								mu.Unlock()
+								cr.Signal(syscall.SIGINT)
+								return
+							}
+						}
+					}()
+				}
+			}})
+		run.Eval(1)
+		if res.SetupErr != "" {
+			run.Inconclusive(res.SetupErr)
+			continue
+		}
+		if t := res.crashText(); t != "" {
+			run.Violation("crash", "sx crashed: "+strings.SplitN(t, "\n", 2)[0], args)
+			continue
+		}
+		mu.Lock()
+		sent, lt, sa := armed, lastTx, sigAt
+		mu.Unlock()
+		switch {
+		case !sent && res.ExitCode != 0:
+			run.Count("huge_delay_refused", 1) // refusing an enormous delay is not listening short
+		case !sent:
+			run.Inconclusive("no probe seen")
+		case sa.IsZero():
+			run.Violation("exit-before-delay", fmt.Sprintf("--exit-delay %s: sx exited %v after its last probe, on its own, long before the delay was over: %s", delays[i%len(delays)], res.ExitWall.Sub(lt), strings.Join(args, " ")), args)
+		default:
+			run.Count("huge_delay_runs_still_listening_after_3s", 1)
+		}
+		run.Count("huge_delay_runs", 1)
+		run.Distinct(strings.Join(args, " "))
 	}
 }
